@@ -174,7 +174,7 @@ ListsResult(U, be) == LW!WriteUnit(U.rt, U.lt, LEnc(U.enc, be), Lp(U))
 
 (* Line programs.  An encoding may carry prog = the DWARF version of the unit's  *)
 (* line program (0 / absent: LineProgram::none).  The program has the primary   *)
-(* file and two added files; a FileIndex value [f |-> n] names the n-th added   *)
+(* file and nfiles added files; a FileIndex value [f |-> n] names the n-th added *)
 (* file ([v |-> <<>>] is FileIndex(None)).  File tables are 1-based up to        *)
 (* version 4 (index 0 = the unit's own name) and 0-based with the primary file  *)
 (* at 0 in version 5, so the n-th added file has index n in either.             *)
@@ -185,7 +185,10 @@ ListsResult(U, be) == LW!WriteUnit(U.rt, U.lt, LEnc(U.enc, be), Lp(U))
 (* pair with an error is accepted as well (ProgMismatch).                       *)
 Prog(enc) == IF "prog" \in DOMAIN enc THEN enc.prog ELSE 0
 HasFile(val) == val.k = "FileIndex" /\ "f" \in DOMAIN val
-FileNames == <<<<102, 105, 114, 115, 116, 46, 99>>, <<115, 101, 99, 111, 110, 100, 46, 99>>>>     \* "first.c", "second.c"
+(* the n-th added file is called "f<n>.c" *)
+RECURSIVE Digits(_)
+Digits(n) == IF n < 10 THEN <<48 + n>> ELSE Digits(n \div 10) \o <<48 + (n % 10)>>
+FileName(n) == <<102>> \o Digits(n) \o <<46, 99>>
 (* Unit::line_program_in_use: some entry (attached or not) holds FileIndex(Some) *)
 ProgInUse(U) == Prog(U.enc) # 0 /\ \E e \in DOMAIN U.ents : \E i \in DOMAIN U.ents[e].attrs : HasFile(U.ents[e].attrs[i].val)
 (* LineProgram::write refuses a version 5 program for an older unit *)
@@ -229,7 +232,7 @@ Size(val, enc) ==
       [] k = "Sdata" -> SLebLen(val.v)
       [] k = "ImplicitConst" -> IF enc.version >= 5 THEN 0 ELSE SLebLen(val.v)
       [] k \in ConstKinds \cup {"Udata"} -> ULebLen(val.v)
-      [] k = "FileIndex" -> 1
+      [] k = "FileIndex" -> IF HasFile(val) THEN Len(ULebNat(val.f)) ELSE 1
       [] k = "Exprloc" -> Len(ULebNat(Len(val.b))) + Len(val.b)
       [] k = "Flag" -> 1
       [] k = "FlagPresent" -> IF enc.version >= 4 THEN 0 ELSE 1
@@ -251,7 +254,7 @@ Emit(val, enc, cx) ==
       [] k = "Sdata" -> OkF(FRaw(SLeb(val.v)))
       [] k = "ImplicitConst" -> IF enc.version >= 5 THEN OkF(<<>>) ELSE OkF(FRaw(SLeb(val.v)))
       [] k \in ConstKinds \cup {"Udata"} -> OkF(FRaw(ULeb(val.v)))
-      [] k = "FileIndex" -> OkF(FRaw(<<IF HasFile(val) THEN val.f ELSE 0>>))
+      [] k = "FileIndex" -> OkF(FRaw(IF HasFile(val) THEN ULebNat(val.f) ELSE <<0>>))
       [] k = "Exprloc" -> IF HasOps(val)
                           THEN LET r == OpsEmit(val.ops, enc, cx) IN
                                IF r.err # "" THEN r ELSE OkF(FRaw(ULebNat(FLen(r.fs))) \o r.fs)
@@ -290,7 +293,7 @@ Meaning(val, enc, pos, u, cx, be) ==
       [] k = "ImplicitConst" -> IF enc.version >= 5 THEN [implicit |-> val.v] ELSE [sdata |-> val.v]
       [] k = "Udata" -> [udata |-> val.v]
       [] k \in ConstKinds -> [const |-> k, v |-> val.v]
-      [] k = "FileIndex" -> IF HasFile(val) THEN [file |-> Nat8(val.f), path |-> FileNames[val.f]] ELSE [file |-> Zero(8)]
+      [] k = "FileIndex" -> IF HasFile(val) THEN [file |-> Nat8(val.f), path |-> FileName(val.f)] ELSE [file |-> Zero(8)]
       [] k = "Exprloc" -> IF HasOps(val) THEN [expr |-> Flat(OpsEmit(val.ops, enc, cx).fs, be)] ELSE [expr |-> val.b]
       [] k = "Flag" -> [flag |-> val.v]
       [] k = "FlagPresent" -> [flag |-> TRUE]
